@@ -259,7 +259,7 @@ def main(argv):
                 fr['included_as_dependency_of'] = dep_of[key]
             if not os.environ.get('GOVC_NO_DEPS') and not P.get('no_dependency_closure'):
                 clos_ = [k_ for k_ in verified_elsewhere if k_.startswith(key + '$')]      # its function literals
-                for ck_ in sorted(getattr(V, 'used_contracts', ())) + sorted(clos_):
+                for ck_ in sorted(getattr(V, 'used_contracts', ())) + sorted(clos_) + sorted(getattr(V, 'inlined_contracts', ())):
                     rk_ = prog.resolve(ck_)
                     if rk_ in listed_ or rk_ not in verified_elsewhere or rk_ not in prog.funcs or not prog.funcs[rk_]['blocks']:
                         continue
@@ -305,6 +305,9 @@ def main(argv):
             futs.append(pool.submit(solve_point, smt))
         elif mode == 'cover':
             futs.append(pool.submit(solve_text, smt, min(timeout, 5), CACHE, ob.name, ('z3-5.1',), None))
+        elif getattr(ob, 'kind', '') == 'lemma':
+            # pure (often non-linear) arithmetic: E-matching has nothing to match on, go to the full solvers at once
+            futs.append(pool.submit(solve_text, smt, timeout, CACHE, ob.name, order, 1))
         else:
             futs.append(pool.submit(solve_text, smt, timeout, CACHE, ob.name, order, min(timeout, 15)))
     covers_ok = 0
